@@ -42,6 +42,8 @@ def run(chk):
     chk.require(ft is not None, "json_tokener_parse_ex not found")
     with chk.shared():
         c01.r6(chk, prog, ft)        # re-parsing: the number read back is the library conversion of the emitted text
+        from . import c09
+        c09._r6_serializer_data(chk, prog, m, "C09.R6", announce=True)   # a copy keeps the serializer that decides whether retained text is emitted
     chk.undecided_clauses += [
         "exactness of the %.17g double text itself (libc's conversion; value-level)",
         "parse(serialize(T)) == T and re-serialization identity (needs both executions)",
@@ -566,17 +568,27 @@ def r5(chk, prog, m):
             if k >= len(c.ops):
                 continue
             a = c.ops[k]
-            while a.kind == "cexpr" and a.args:
-                a = a.args[0]
-            g = f.module.globals.get(a.v) if a.kind == "global" else None
-            if g is None or not g.bytes:
-                continue
-            txt = g.bytes.split(b"\0")[0].decode("latin-1")
-            if "%" in txt:
-                continue
-            if c.callee in ("memcpy", "strcpy", "llvm.memcpy.p0i8.p0i8.i64") and txt not in NONFINITE_TEXT:
-                continue          # copies of other literals (".0", separators) are not renderings of the value
-            fixed.append((c, txt))
+            # the text may be chosen among literals before the call (a phi / select of string literals): one rendering per choice,
+            # located at the predecessor block the choice comes from
+            choices = []
+            d0 = f.defs.get(a.v) if a.kind == "reg" else None
+            if d0 is not None and d0.op == "phi":
+                for val, lab in d0.x["incoming"]:
+                    choices.append((val, f.blocks[lab]))
+            else:
+                choices.append((a, None))
+            for a1, blk in choices:
+                while a1.kind == "cexpr" and a1.args:
+                    a1 = a1.args[0]
+                g = f.module.globals.get(a1.v) if a1.kind == "global" else None
+                if g is None or not g.bytes:
+                    continue
+                txt = g.bytes.split(b"\0")[0].decode("latin-1")
+                if "%" in txt:
+                    continue
+                if c.callee in ("memcpy", "strcpy", "llvm.memcpy.p0i8.p0i8.i64") and txt not in NONFINITE_TEXT:
+                    continue          # copies of other literals (".0", separators) are not renderings of the value
+                fixed.append((c, txt, blk))
         if not fixed:
             continue
         vpaths = sorted({P.path(i.ops[0]) for i in loads})
@@ -586,9 +598,9 @@ def r5(chk, prog, m):
         stores = [i for i in f.instrs() if i.op == "store" and P.path(i.ops[1]) == vpath]
         chk.touched(f)
         state, cls, used = fclass.analyse(f, prog, vpath)
-        for c, txt in fixed:
+        for c, txt, blk in fixed:
             # only renderings of the value itself: text that is a JSON-extension number word or is selected by a test on the value
-            st = state.get(c.block)
+            st = state.get(c.block) if blk is None else fclass.analyse.last_edges.get((blk.name, c.block.name))
             sig = "fixed text %r" % txt
             if st is None:
                 chk.proven(rid, f.name, sig, c.locstr(), "unreachable")
